@@ -148,6 +148,21 @@ var reBinder = regexp.MustCompile(`\(([A-Za-z0-9_!]+) ([A-Za-z]+)\)`)
 // constant, and every assumed single-variable universal clause over the same sort is
 // instantiated at that constant (logical consequences, emitted as facts).
 func (g *fgen) skolemizeGoal(goal string) string {
+	if strings.HasPrefix(goal, "(=> ") && strings.HasSuffix(goal, ")") {
+		// (=> A (forall ...)): skolemize the consequent
+		end := sexpEnd(goal, 4)
+		if end > 0 && end+1 < len(goal) {
+			a := goal[4:end]
+			rest := goal[end+1 : len(goal)-1]
+			if strings.HasPrefix(rest, "(forall ((") || strings.HasPrefix(rest, "(=> ") {
+				r2 := g.skolemizeGoal(rest)
+				if r2 != rest {
+					return "(=> " + a + " " + r2 + ")"
+				}
+			}
+		}
+		return goal
+	}
 	m := reGoalForall.FindStringSubmatch(goal)
 	if m == nil || !strings.HasSuffix(goal, ")") {
 		return goal
@@ -242,4 +257,36 @@ func (g *fgen) goalTermInstances(goal string) []string {
 		}
 	}
 	return out
+}
+
+// sexpEnd: index just past the s-expression (or atom) starting at s[i]; -1 if malformed.
+func sexpEnd(s string, i int) int {
+	if i >= len(s) {
+		return -1
+	}
+	if s[i] != '(' {
+		j := i
+		for j < len(s) && s[j] != ' ' && s[j] != ')' {
+			j++
+		}
+		return j
+	}
+	d := 0
+	for j := i; j < len(s); j++ {
+		switch s[j] {
+		case '(':
+			d++
+		case ')':
+			d--
+			if d == 0 {
+				return j + 1
+			}
+		case '"':
+			j++
+			for j < len(s) && s[j] != '"' {
+				j++
+			}
+		}
+	}
+	return -1
 }
